@@ -1151,7 +1151,7 @@ impl Transaction {
             //
             if let Some(hash_for_signature) = &self.hash_for_signature {
                 let sig: SaitoSignature = self.signature;
-                let public_key: SaitoPublicKey = self.from[0].public_key;
+                let public_key: SaitoPublicKey = self.signer_public_key();
                 if !verify_signature(hash_for_signature, &sig, &public_key) {
                     error!(
                         "tx verification failed : hash = {:?}, sig = {:?}, pub_key = {:?}",
@@ -1175,8 +1175,10 @@ impl Transaction {
             //
             // the signature only authorises spending the outputs of the signer
             //
-            if self.transaction_type != TransactionType::Bound {
-                let signer: SaitoPublicKey = self.from[0].public_key;
+            // (NFT transactions included: the Normal slips they spend are coins like any other)
+            //
+            {
+                let signer: SaitoPublicKey = self.signer_public_key();
                 if self.from.iter().any(|slip| {
                     slip.amount > 0 && slip.slip_type != SlipType::Bound && slip.public_key != signer
                 }) {
@@ -1651,6 +1653,25 @@ impl Transaction {
         } else {
             true
         };
+    }
+
+    /// The key whose signature authorises the transaction: the owner of the first input.
+    /// In a transfer of an NFT the first input is a Bound slip whose key field is NFT data
+    /// (the creator's key, copied unchanged by every transfer). If the Normal slip that moves
+    /// with the NFT carries coins, its owner -- the holder of the NFT, whom the ledger knows
+    /// through that slip -- must sign; an NFT without deposit stays under the key in its
+    /// first Bound slip, as before.
+    /// Must only be called on a transaction with at least one input.
+    pub fn signer_public_key(&self) -> SaitoPublicKey {
+        if self.transaction_type == TransactionType::Bound
+            && self.from.len() >= 3
+            && self.from[0].slip_type == SlipType::Bound
+            && self.from[1].amount > 0
+        {
+            self.from[1].public_key
+        } else {
+            self.from[0].public_key
+        }
     }
 
     pub fn validate_against_utxoset(&self, utxoset: &UtxoSet) -> bool {
